@@ -118,7 +118,6 @@ func (s *Service) Start(ctx context.Context) error {
 
 	s.doStart.Do(func() {
 		launched = true
-		defer s.isStarted.Store(true)
 		ec := &s.ec
 		ehSignal := make(chan struct{})
 		mainSignal := make(chan struct{})
@@ -138,6 +137,9 @@ func (s *Service) Start(ctx context.Context) error {
 		}()
 
 		ctx, s.cancel = context.WithCancel(ctx)
+		// a caller that observes Running() must be able to Wait:
+		// the wait group is already counting at this point.
+		s.isStarted.Store(true)
 		s.isRunning.Store(true)
 
 		shutdownSignal := make(chan struct{})
